@@ -1,11 +1,14 @@
 import Driver.Proto
 import Driver.Hb
+import Driver.Isect
 /-! Model driver: one request per line on stdin, one answer per line on stdout. -/
 open Drv
 
 def dispatch (line : String) : String :=
   match (line.splitOn " ").filter (· ≠ "") with
   | "hb" :: r => Hb.handle r
+  | "isect" :: r => Isect.handle r
+  | "punion" :: r => Isect.handleUnion r
   | [] => "bad empty"
   | a :: _ => s!"bad area {a}"
 
